@@ -35,24 +35,34 @@ def unhx(h):
     return "" if h == "-" else bytes.fromhex(h).decode("utf-8", "replace")
 
 
-def run_ops(binpath, ops, workers=8, timeout=1500):
-    """one answer line per op, ops spread over `workers` processes; a process that dies (logger.Fatal in the
-    compiler = os.Exit) answers 'crash <stderr tail>' for the op it was executing and the rest is resumed."""
+def run_ops(binpath, ops, workers=8, per_op=150):
+    """one answer line per op, ops spread over `workers` processes.  The harness flushes every answer and
+    ends itself after answering `timeout` for an op that exceeds its limit; a process that dies
+    (logger.Fatal in the compiler = os.Exit) has answered every op before the fatal one, which gets
+    'crash <stderr tail>'; the rest is resumed in a new process."""
     res = [None] * len(ops)
 
     def work(idxs):
         todo = list(idxs)
         while todo:
-            p = subprocess.run([binpath], input="\n".join(ops[i] for i in todo) + "\n", stdout=subprocess.PIPE,
-                               stderr=subprocess.PIPE, text=True, timeout=timeout)
-            lines = p.stdout.splitlines()
+            try:
+                p = subprocess.run([binpath], input="\n".join(ops[i] for i in todo) + "\n", stdout=subprocess.PIPE,
+                                   stderr=subprocess.PIPE, text=True, timeout=300 + per_op * len(todo))
+                out, err, rc = p.stdout, p.stderr, p.returncode
+            except subprocess.TimeoutExpired as e:
+                out = e.stdout.decode("utf-8", "replace") if isinstance(e.stdout, bytes) else (e.stdout or "")
+                err, rc = "batch timeout", -9
+            lines = out.splitlines()
             for i, l in zip(todo, lines):
-                res[i] = l
+                res[i] = "crash " + hx("per-op time limit exceeded") if l == "timeout" else l
             if len(lines) >= len(todo):
                 return
-            bad = todo[len(lines)]
-            res[bad] = "crash " + hx(p.stderr[-300:].strip() or ("exit %d" % p.returncode))
-            todo = todo[len(lines) + 1:]
+            if not (lines and lines[-1] == "timeout"):
+                bad = todo[len(lines)]
+                res[bad] = "crash " + hx((err or "")[-300:].strip() or ("exit %d" % rc))
+                todo = todo[len(lines) + 1:]
+            else:
+                todo = todo[len(lines):]
     chunks = [list(range(k, len(ops), workers)) for k in range(workers)]
     with cf.ThreadPoolExecutor(workers) as ex:
         list(ex.map(work, [c for c in chunks if c]))
